@@ -304,6 +304,73 @@ def h_sample_independence(g):
     g.check(x[3] == y[3], "the number of unaligned reads reported for an experiment does not include the previous experiment's")
 
 
+def h_input_experiments(mode):
+    """the experiment descriptions of a multi-experiment run (YAML or file list) through the real InputDataStorage: what
+    experiment B is given (files, labels, short-read BAMs, name when it has one) equals what it is given when it is described alone;
+    the shape of both experiments (named or not, 1-2 files, labels, short reads) is chosen by the solver"""
+    import io as _io
+    import src.input_data_storage as ids
+
+    def describe(g, tag):
+        return dict(named=bool(g.bool("%s_named" % tag)), n_files=1 + g.choice("%s_files" % tag, 2), labels=bool(g.bool("%s_labels" % tag)),
+                    illumina=bool(g.bool("%s_short_reads" % tag)) if mode == "yaml" else False)
+
+    def entry(tag, d):
+        files = ["/data/%s_%d.bam" % (tag, i) for i in range(d["n_files"])]
+        e = {"long read files": files}
+        if d["named"]:
+            e["name"] = "exp_" + tag
+        if d["labels"]:
+            e["labels"] = ["%s_lab%d" % (tag, i) for i in range(d["n_files"])]
+        if d["illumina"]:
+            e["illumina bam"] = ["/data/%s_short.bam" % tag]
+        return e
+
+    def listing(entries):
+        lines = []
+        for e in entries:
+            lines.append("#" + e.get("name", ""))
+            for i, f in enumerate(e["long read files"]):
+                lines.append(f + (":" + e["labels"][i] if "labels" in e else ""))
+        return "\n".join(lines) + "\n"
+
+    def load(g, entries):
+        saved = (ids.yaml, ids.__dict__.get("open"))
+        ids.yaml = Obj(safe_load=lambda f: [{"data format": "bam"}] + [dict(e) for e in entries])
+        ids.open = lambda path, mode_="r": _io.StringIO(listing(entries))
+        try:
+            args = Obj(fastq=None, bam=None, fastq_list=None, bam_list="/in/list.txt" if mode == "list" else None, read_assignments=None,
+                       yaml="/in/data.yaml" if mode == "yaml" else None, labels=None, prefix="OUT", output="/out", illumina_bam=None)
+            import contextlib
+            with contextlib.redirect_stdout(_io.StringIO()):          # the YAML reader prints the input type
+                return call(g, ids.InputDataStorage, args).samples
+        finally:
+            ids.yaml = saved[0]
+            if saved[1] is None:
+                ids.__dict__.pop("open", None)
+            else:
+                ids.open = saved[1]
+
+    def fn(g):
+        da, db = describe(g, "A"), describe(g, "B")
+        ea, eb = entry("A", da), entry("B", db)
+        both, alone = load(g, [ea, eb]), load(g, [eb])
+        det = {"A": da, "B": db}
+        g.check(len(both) == 2 and len(alone) == 1, "one sample per described experiment", detail=det)
+        if len(both) != 2 or len(alone) != 1:
+            return
+        b2, b1 = both[1], alone[0]
+        g.check(b2.file_list == b1.file_list, "an experiment gets its own read files only", detail=dict(det, together=str(b2.file_list), alone=str(b1.file_list)))
+        g.check(dict(b2.readable_names_dict) == dict(b1.readable_names_dict), "file labels of an experiment do not depend on the other experiments",
+                detail=dict(det, together=str(dict(b2.readable_names_dict)), alone=str(dict(b1.readable_names_dict))))
+        g.check(b2.illumina_bam == b1.illumina_bam, "short-read BAMs of an experiment do not depend on the other experiments",
+                detail=dict(det, together=str(b2.illumina_bam), alone=str(b1.illumina_bam)))
+        if db["named"]:
+            g.check(b2.prefix == b1.prefix == "exp_B" and b2.out_dir == b1.out_dir, "a named experiment keeps its name and output folder")
+        g.check(both[0].prefix != both[1].prefix and both[0].out_dir != both[1].out_dir, "two experiments never share an output folder", detail=det)
+    return fn
+
+
 def instances(tier, seed):
     q = tier == "quick"
     G = "src.graph_based_model_construction:GraphBasedModelConstructor."
@@ -319,6 +386,10 @@ def instances(tier, seed):
                                                                      "src.dataset_processor:set_polya_requirement_strategy"],
                         "two experiments with symbolic assignment totals, polyA counts and unmapped reads; every --polya_requirement and preset flag",
                         weight=40, budget_s=900))
+    for mode in ("yaml", "list"):
+        out.append(Instance("input_experiments[%s]" % mode, h_input_experiments(mode),
+                            ["src.input_data_storage:InputDataStorage.__init__", "src.input_data_storage:InputDataStorage.get_samples_from_" + ("yaml" if mode == "yaml" else "file")],
+                            "two experiments, every combination of named / 1-2 files / labels / short reads", weight=30))
     for n in ((2,) if q else (2, 3)):
         out.append(Instance("duplicate_counter[n=%d]" % n, h_duplicate_counter(n), ["src.multimap_resolver:MultimapResolver.find_duplicates",
                                                                                    "src.multimap_resolver:MultimapResolver.resolve"],
